@@ -154,6 +154,22 @@ def r_flipshape(f):
     cursors = [t for _, t, fn in b.calls() if fn and fn["name"] == "rows_mut"]
     sw = [t for _, t, fn in b.calls() if fn and fn["path"] in ("core::slice::<impl [T]>::swap_with_slice",)]
     ok = len(cursors) == 1 and set(steps) == {"next", "next_back"} and len(sw) == 1
+    if not ok and len(cursors) == 1 and set(steps) == {"next", "next_back", "len"} and len(sw) == 1:
+        # counted form: exactly len()/2 rounds, the count taken from the same cursor before it is advanced
+        d = Dfx(b)
+        ends = []
+        for bi, si, st in b.stmts():
+            if st["k"] == "assign" and st["rv"]["k"] == "agg" and (st["rv"].get("adt") or "").endswith("ops::Range") and len(st["rv"]["fields"]) == 2:
+                ends.append((const_usize(strip(d.expr(st["rv"]["fields"][0]))), strip(d.expr(st["rv"]["fields"][1]))))
+        def half_len(e):
+            if e[0] == "bin" and ((e[1] == "Div" and const_usize(strip(e[3])) == 2) or (e[1] == "Shr" and const_usize(strip(e[3])) == 1)):
+                c = strip(e[2])
+                return c[0] == "call" and c[2] == "len" and any(x[0] == "call" and x[2] == "rows_mut" for x in walk(c))
+            return False
+        lens = [bi for bi, t, fn in b.calls() if fn and fn["name"] == "len"]
+        firsts = [bi for bi, t, fn in b.calls() if fn and fn["name"] in ("next", "next_back")]
+        dom = b.dominators()
+        ok = len(ends) == 1 and ends[0][0] == 0 and half_len(ends[0][1]) and len(lens) == 1 and all(lens[0] in dom.get(x, set()) and x != lens[0] for x in firsts)
     R.inst(b.ident, "pairs next() with next_back() of one rows_mut() cursor and swaps the two rows (steps %s)" % sorted(set(steps)), ok)
     if not ok:
         R.fail(b.ident, "shape", "flip_rows no longer swaps the outermost remaining rows pairwise from one rows_mut() cursor (cursors: %d, steps: %s, swap_with_slice: %d)" % (len(cursors), sorted(set(steps)), len(sw)), b.where())
@@ -164,6 +180,8 @@ def r_flipshape(f):
     bodies = [b] + b.closures()
     steps = [s_ for x in bodies for s_ in cursor_steps(x, "RowsMut")]
     rev = [t for x in bodies for _, t, fn in x.calls() if fn and fn["path"] == "core::slice::<impl [T]>::reverse"]
+    # `rows_mut().for_each(<[T]>::reverse)`: the function item is the argument of the traversal
+    rev += [t for x in bodies for _, t, fn in x.calls() if fn and fn["name"] in ("for_each",) and any(a["k"] == "const" and (a.get("fn") or {}).get("path") == "core::slice::<impl [T]>::reverse" for a in t["args"][1:])]
     adv = set(steps) - {"into_iter"}
     ok = bool(rev) and adv <= {"next", "for_each", "fold"} and bool(adv)
     R.inst(b.ident, "reverses every row of rows_mut() (cursor advanced only by %s)" % sorted(adv), ok)
@@ -203,32 +221,46 @@ def r_conv(f):
             R.fail(b.ident, "not-whole-move", "%s no longer moves the array's Vec whole (calls %s): cells could be reordered, dropped or duplicated on conversion" % (b.ident, names), b.where())
     # From<view>
     for who in ("TooDeeView", "TooDeeViewMut"):
-        b = f.get("TooDee as From<view::%s<T>>::from" % who)
-        if b is None:
+        b0 = f.get("TooDee as From<view::%s<T>>::from" % who)
+        if b0 is None:
             raise AnchorMissing("From<%s> for TooDee" % who)
         n += 1
+        # a conversion that only forwards the view to a crate helper is judged on the helper's body
+        b, vp = b0, 1
+        for _ in range(2):
+            cs = [(t, fn) for _, t, fn in b.calls() if fn]
+            if len(cs) == 1 and not b.has_loop():
+                hb = f.crate_fn_for_call(cs[0][1])
+                dd = Dfx(b)
+                pos = [i for i, a in enumerate(cs[0][0]["args"]) if any(x == ("param", vp) for x in walk(strip(dd.expr(a))))]
+                if hb is not None and hb.kind != "Closure" and len(pos) == 1 and cs[0][0]["dest"]["local"] == 0 and not cs[0][0]["dest"]["proj"]:
+                    b, vp = hb, pos[0] + 1
+                    continue
+            break
         d = Dfx(b)
+        clos = [c for c in f.fn_bodies if c.kind == "Closure" and c.d.get("root") == b.id]
         steps = cursor_steps(b, "Rows")
-        ext = [t for _, t, fn in b.calls() if fn and fn["name"] in ("extend_from_slice", "extend")]
+        ext = [t for bb in [b] + clos for _, t, fn in bb.calls() if fn and fn["name"] in ("extend_from_slice", "extend")]
         rows_calls = [t for _, t, fn in b.calls() if fn and fn["name"] in ("rows",)]
-        ok = len(rows_calls) == 1 and set(steps) - {"into_iter"} <= {"next"} and "next" in steps and len(ext) == 1
+        front = (set(steps) - {"into_iter"} <= {"next"} and "next" in steps) or (set(steps) - {"into_iter"} == {"for_each"} and steps.count("for_each") == 1)
+        ok = len(rows_calls) == 1 and front and len(ext) == 1
         if ok:
             recv = strip(d.expr(rows_calls[0]["args"][0]))
-            ok = any(x == ("param", 1) for x in walk(recv))
-        R.inst(b.ident, "copies view.rows() front to back with extend_from_slice (steps %s)" % sorted(set(steps)), ok)
+            ok = any(x == ("param", vp) for x in walk(recv))
+        R.inst(b0.ident, "copies view.rows() front to back with extend_from_slice (steps %s%s)" % (sorted(set(steps)), "" if b is b0 else ", in helper %s" % b.ident), ok)
         if not ok:
-            R.fail(b.ident, "rows-order", "From<%s> does not append the rows of the given view front to back" % who, b.where())
+            R.fail(b0.ident, "rows-order", "From<%s> does not append the rows of the given view front to back" % who, b.where())
         # dimensions come from the getters of the same view
         for bi, si, st in b.stmts():
             if st["k"] == "assign" and st["rv"]["k"] == "agg" and st["rv"].get("agg") == "adt" and st["rv"]["adt"].endswith("TooDee"):
                 fnames = st["rv"]["fields_names"]
                 for nm in ("num_cols", "num_rows"):
                     e = strip(d.expr(st["rv"]["fields"][fnames.index(nm)]))
-                    okd = e[0] == "call" and e[2] == nm and any(x == ("param", 1) for x in walk(e))
+                    okd = e[0] == "call" and e[2] == nm and any(x == ("param", vp) for x in walk(e))
                     n += 1
-                    R.inst(b.ident, "field %s = view.%s()" % (nm, nm), okd)
+                    R.inst(b0.ident, "field %s = view.%s()" % (nm, nm), okd)
                     if not okd:
-                        R.fail(b.ident, "dims:%s" % nm, "From<%s>: field %s is %s, not the view's own %s()" % (who, nm, show(e), nm), b.where(st["span"]))
+                        R.fail(b0.ident, "dims:%s" % nm, "From<%s>: field %s is %s, not the view's own %s()" % (who, nm, show(e), nm), b.where(st["span"]))
     # derive provenance
     for tr in ("Clone::clone", "PartialEq::eq", "Hash::hash"):
         b = f.get("TooDee as %s" % tr)
@@ -308,6 +340,29 @@ def r_intoiter(f):
             order = None
         fin = [fn["name"] for _, _, fn in b.calls() if fn and fn["name"] in ("fold", "rfold") and "Chain" in " ".join(fn.get("args", []) + [fn.get("self_ty") or "", fn.get("resolved") or ""])]
         okc = okc and fin == [nm]
+        if not okc and not chains:
+            # the same traversal written as three consecutive folds: the partial row at the leading end, the untouched rows
+            # (each folded in the same direction inside the closure), the partial row at the trailing end
+            names = fe_field_names(f)
+            folds = []
+            for bi, t, fn in b.calls():
+                if fn and fn["name"] in ("fold", "rfold", "try_fold", "try_rfold", "for_each"):
+                    fld = None
+                    for x in walk(strip(d.expr(t["args"][0]))):
+                        if x[0] == "field" and strip(x[1]) == ("param", 1) and x[2] < len(names):
+                            fld = names[x[2]]
+                    folds.append((bi, fn["name"], fld))
+            want = ["frontiter", "iter", "backiter"] if nm == "fold" else ["backiter", "iter", "frontiter"]
+            seq_ok = len(folds) == 3 and all(x[1] == nm for x in folds) and sorted(x[2] or "?" for x in folds) == sorted(want)
+            if seq_ok:
+                blk = {x[2]: x[0] for x in folds}
+                for a, c in ((want[0], want[1]), (want[1], want[2])):
+                    # a's call precedes c's on every path: c is reachable from a, a is not reachable from c
+                    seq_ok = seq_ok and blk[c] in b.reachable(blk[a]) and blk[a] not in b.reachable(blk[c]) and blk[a] != blk[c]
+            inner = [fn2["name"] for c in f.fn_bodies if c.kind == "Closure" and c.d.get("root") == b.id for _, _, fn2 in c.calls() if fn2 and fn2["name"] in ("fold", "rfold", "try_fold", "try_rfold", "for_each", "next", "next_back", "rev")]
+            seq_ok = seq_ok and inner == [nm]
+            if seq_ok:
+                okc, order, fin = True, want, ["%s x3 in sequence, rows closure folds with %s" % (nm, nm)]
         R.inst(b.ident, "chains %s and folds with %s" % (order, fin), okc)
         if not okc:
             R.fail(b.ident, "chain", "%s chains %s and finishes with %s; expected frontiter, iter, backiter folded with %s" % (b.ident, order, fin, nm), b.where())
@@ -389,9 +444,27 @@ def r_drainlit(f):
     fi = {x["name"]: i for i, x in enumerate(td["fields"])}
     pn = b.param_names()
 
-    def is_dim(e, name):
+    def is_dim(e, name, depth=0):
+        """e is the value the array's dimension `name` had on entry: a read of the field, the result of
+        mem::replace / mem::take on it, or the matching component of a crate helper's result tuple that is one of these"""
         e = strip(e)
-        return e[0] == "field" and e[2] == fi[name] and strip(e[1]) in (("deref", ("param", 1)), ("param", 1))
+        if e[0] == "field" and e[2] == fi[name] and strip(e[1]) in (("deref", ("param", 1)), ("param", 1)):
+            return True
+        if e[0] == "call" and e[1] in ("core::mem::replace", "core::mem::take") and e[3]:
+            a = strip(e[3][0])
+            return a[0] == "refmut" and is_dim(a[1], name, depth)
+        if depth < 2 and e[0] == "field" and strip(e[1])[0] == "call":
+            c = strip(e[1])
+            hb = f.crate_fn_for_call(c[4]) if len(c) > 4 and isinstance(c[4], dict) else None
+            recv = strip(c[3][0]) if c[3] else None
+            if hb is not None and recv in (("refmut", ("deref", ("param", 1))), ("param", 1)):
+                hd = Dfx(hb)
+                rets = [strip(hd.rvalue(st2["rv"])) for _, _, st2 in hb.stmts() if st2["k"] == "assign" and st2["p"]["local"] == 0 and not st2["p"]["proj"]]
+                if len(rets) == 1 and rets[0][0] == "agg" and rets[0][1] == "tuple" and e[2] < len(rets[0][2]):
+                    # no direct store to the field in the helper (it may only be changed through the replace itself)
+                    direct = any(st2["k"] == "assign" and st2["p"]["proj"] and strip(hd.place(st2["p"])) == ("field", ("deref", ("param", 1)), fi[name]) for _, _, st2 in hb.stmts())
+                    return not direct and is_dim(rets[0][2][e[2]], name, depth + 1)
+        return False
 
     found = False
     for bi, si, st in b.stmts():
